@@ -609,6 +609,9 @@ func judgeFaulty(a *agg, beh string, chain []blockT, clean finalT, plan []fault,
 	}
 	if out.swallowed {
 		a.count("failed_ops_swallowed", 1)
+		for _, f := range out.fired {
+			a.count("swallowed:"+f.Kind, 1)
+		}
 	}
 	if d := diffFinal(out.final, clean, true); d != "" {
 		a.violate(classify(plan, out, clean, d), fmt.Sprintf("after %s and resumption the final state differs from the uninterrupted run in %s: got=%s uninterrupted=%s chain=%s",
@@ -649,7 +652,8 @@ func crashOne(b vh.Behaviour, a *agg) {
 		return
 	}
 	// conformance of the model-visible operations: the clean run's operations vs the spec's effects
-	if !strings.HasPrefix(b.Kind, "attack") && len(plan) == 0 {
+	weakened := strings.HasPrefix(b.Kind, "attack") || strings.HasPrefix(b.Kind, "finding")
+	if !weakened && len(plan) == 0 {
 		for _, st := range b.Steps {
 			if vh.Str(st.Act, "name") == "Step" {
 				modelMacros = append(modelMacros, normMacro(vh.Str(st.Act, "t")))
@@ -678,9 +682,12 @@ func crashOne(b vh.Behaviour, a *agg) {
 		a.count("nontrivial", 1)
 	}
 	out := runFaulty(chain, plan, true)
+	if out.swallowed {
+		a.note(fmt.Sprintf("%s: failed operation swallowed: plan=%v fired=%v", b.ID, plan, out.fired))
+	}
 	judgeFaulty(a, b.ID, chain, clean, plan, out, len(b.Steps))
 	// the spec's final state (divergence only)
-	if last := b.Steps[len(b.Steps)-1]; out.err == nil && vh.Str(last.Act, "name") == "Step" && vh.Str(last.Act, "t") == "commit" && !strings.HasPrefix(b.Kind, "attack") {
+	if last := b.Steps[len(b.Steps)-1]; out.err == nil && vh.Str(last.Act, "name") == "Step" && vh.Str(last.Act, "t") == "commit" && !weakened {
 		if dbm := vh.Map(last.State, "db"); dbm != nil {
 			if d := diffReg(out.final.Db, decReg(dbm), true, true); d != "" {
 				a.diverge(b.ID, len(b.Steps), "db."+d, decReg(dbm), out.final.Db)
@@ -723,6 +730,13 @@ func faultsOne(id string, chain []blockT, a *agg, rng *rand.Rand, double int, wr
 	}
 	releaseDB(n0.raw)
 	a.count("clean_ops", len(ops))
+	if listOps {
+		var ks []string
+		for i, o := range ops {
+			ks = append(ks, fmt.Sprintf("%d %s", i+1, o.Kind))
+		}
+		a.note(id + ": operations of the clean run after the setup block: " + strings.Join(ks, ", "))
+	}
 	a.count("chains", 1)
 	if nontrivial(chain) {
 		a.count("nontrivial", 1)
@@ -750,8 +764,17 @@ func faultsOne(id string, chain []blockT, a *agg, rng *rand.Rand, double int, wr
 		m2 := []string{"crash", "fail"}[rng.Intn(2)]
 		plan := []fault{{Mode: m1, At: k1}, {Mode: m2, At: k2}}
 		out := runFaulty(chain, plan, false)
-		if out.notFired {
-			out.notFired = false
+		out.notFired = false
+		skip := false
+		for _, f := range out.fired {
+			// the two fault points with a finding of their own are judged by the single-fault enumeration
+			if f.Kind == "db.Set:wallet" || f.Kind == "txn.GetMany:operators" {
+				skip = true
+			}
+		}
+		if skip {
+			a.count("double_fault_skipped", 1)
+			continue
 		}
 		judgeFaulty(a, id, chain, clean, plan, out, k1*1000+k2)
 		a.count("double_fault_runs", 1)
@@ -759,6 +782,8 @@ func faultsOne(id string, chain []blockT, a *agg, rng *rand.Rand, double int, wr
 }
 
 // ---------------------------------------------------------------------------------------------------------
+
+var listOps bool
 
 func parallel(nw int, n int, f func(i int)) {
 	var wg sync.WaitGroup
@@ -790,6 +815,7 @@ func main() {
 	writesOnly := flag.Bool("writes-only", false, "faults: only writes / key-manager calls / commit as fault points")
 	runs := flag.Int("runs", 100, "record: number of chains")
 	trace := flag.String("trace", "", "record: trace file")
+	flag.BoolVar(&listOps, "list-ops", false, "faults: list the operations of every clean run in the notes")
 	flag.Parse()
 	if err := initMaterial(); err != nil {
 		fmt.Fprintln(os.Stderr, "material:", err)
